@@ -22,6 +22,9 @@ pub trait TimeUntil {
 
 impl TimeUntil for Instant {
     fn time_until(&self) -> Duration {
+        #[cfg(tarpc_verif)]
+        return self.duration_since(crate::verif_hooks::now());
+        #[cfg(not(tarpc_verif))]
         self.duration_since(Instant::now())
     }
 }
